@@ -20,7 +20,7 @@ otherwise `spec = checker-rejects`.
   bfs.layers               hop-distance layers `0|1,2|3`                                         checkSssp on unit weights
   wcc, scc                 partition `0,1|2|3,4` (classes sorted, ordered by least element)      checkWcc / checkScc
   topo                     `valid` / `none` (the harness checks the returned order)              checkTopo / checkCycle
-  kruskal                  `<#edges>:<weight>`; model = keep the FIRST edge per unordered node pair, then a minimum
+  kruskal                  `<#edges>:<weight>`; model = a minimum spanning forest over all edges (before the repair: the FIRST edge per unordered node pair, then a minimum
                            forest; spec = minimum spanning forest of the multigraph              checkSpanning (+ cycle property)
   prim                     `<#edges>:<weight>` on the symmetrised store; model = tree of the start's component
   prim.cover               `<#edges>` on the directed store; model = out-reachable set − 1, spec = component − 1
@@ -235,16 +235,15 @@ def handle (args : List String) : Option Proto.Out :=
       pure (certified (showSet o) (checkReachOrder es s o))
     else if op == "bfs.layers" then pure (layersOut es n s)
     else if op == "prim" then
-      -- the harness stores every listed edge in both directions for this op
-      let comp := reachOrder (sym es) s
-      let inside := es.filter fun e => comp.contains e.1
-      let t := forestRef n (sortEdges inside)
-      pure (mk (showForest t) (msfSpec es n) "prim-single-component")
+      -- the harness stores every listed edge in both directions for this op; `prim` grows one tree
+      -- per component (the start's first): a minimum spanning forest
+      let t := forestRef n (sortEdges es)
+      pure (mk (showForest t) (msfSpec es n) "prim-not-minimal-forest")
     else if op == "prim.cover" then
-      let out := reachOrder es s
-      let comp := reachOrder (sym es) s
-      let spec := if checkReachOrder (sym es) s comp then toString (comp.length - 1) else "checker-rejects"
-      pure (mk (toString (out.length - 1)) spec "prim-ignores-incoming-edges")
+      -- directed store: incoming edges count as well, and every component gets its tree
+      let cls := wccClasses es n
+      let spec := if checkWcc es n cls then toString (n - cls.length) else "checker-rejects"
+      pure (mk spec spec "prim-does-not-span")
     else none
   | [op, n, edges] => do
     let n ← n.toNat?
@@ -264,8 +263,9 @@ def handle (args : List String) : Option Proto.Out :=
         let start := ((List.range n).find? fun v => !order.contains v).getD 0
         pure (certified "none" (checkCycle es (cycleVia pred n start)))
     else if op == "kruskal" then
-      let t := forestRef n (sortEdges (kruskalCollect es n))
-      pure (mk (showForest t) (msfSpec es n) "kruskal-parallel-edges")
+      -- every edge takes part (parallel and antiparallel ones included)
+      let t := forestRef n (sortEdges es)
+      pure (mk (showForest t) (msfSpec es n) "kruskal-not-minimal")
     else none
   | _ => none
 
